@@ -88,7 +88,7 @@ pub fn gen_s1(focus: &str, seed: u64) -> S1Scenario {
         "C03" => *rng.pick(&["mixed", "mixed", "exhaustive", "timeout"]),
         "C05" => *rng.pick(&["exhaustive", "exhaustive", "mixed", "panic", "timeout", "tail-timeout", "tail-panic"]),
         "C11" => *rng.pick(&["exhaustive", "exhaustive", "mixed", "timeout"]),
-        "C12" => *rng.pick(&["mixed", "mixed", "timeout", "timeout", "tail-timeout", "depth"]),
+        "C12" => *rng.pick(&["mixed", "mixed", "timeout", "timeout", "tail-timeout", "depth", "target"]),
         "C13" => *rng.pick(&["bfs1", "bfs1", "bfs1-mixed"]),
         _ => "mixed",
     };
@@ -111,11 +111,21 @@ pub fn gen_s1(focus: &str, seed: u64) -> S1Scenario {
         }
         _ => {}
     }
-    if matches!(mode, "exhaustive" | "bfs1") {
+    if matches!(mode, "exhaustive" | "bfs1" | "target") {
         o.undiscoverable = true;
         o.min_props = o.min_props.max(0);
     }
     let mut graph = gen_graph(&mut rng, &o);
+    if focus == "C12" && ((matches!(mode, "mixed" | "depth") && rng.chance(1, 3)) || (mode == "target" && rng.chance(1, 2))) {
+        // several initial states outside the boundary (they must not count as generated states)
+        for _ in 0..rng.range(1, 6) {
+            let s = rng.below(graph.n as u64) as u16;
+            if !graph.inits.contains(&s) && graph.inits.len() < graph.n {
+                graph.boundary[s as usize] = false;
+                graph.inits.push(s);
+            }
+        }
+    }
     let mut strategy = *rng.pick(&[Strategy::Bfs, Strategy::Dfs, Strategy::OnDemand, Strategy::Simulation]);
     let mut threads = 1 + rng.usize_below(4);
     if focus == "C05" && rng.chance(4, 5) {
@@ -164,6 +174,22 @@ pub fn gen_s1(focus: &str, seed: u64) -> S1Scenario {
             if rng.chance(1, 2) {
                 finish = gen_finish_never(&mut rng, &graph);
             }
+        }
+        "target" => {
+            // nothing but the target can stop the run early
+            strategy = *rng.pick(&[Strategy::Bfs, Strategy::Bfs, Strategy::Dfs, Strategy::OnDemand]);
+            finish = gen_finish_never(&mut rng, &graph);
+            graph.props.retain(|p| p.bits.iter().all(|b| *b) && p.kind == Kind::Always || p.bits.iter().all(|b| !*b) && p.kind == Kind::Sometimes);
+            if graph.props.is_empty() {
+                graph.props.push(PropSpec { kind: Kind::Always, bits: vec![true; graph.n] });
+            }
+            finish = match finish {
+                Finish::AllOf(_) => Finish::All,
+                f => f,
+            };
+            visitor = true;
+            target_states = Some(rng.range(1, 40) as usize);
+            sched.block_size = *rng.pick(&[1usize, 1, 2, 3]);
         }
         "depth" => {
             target_depth = Some(rng.range(1, 8) as usize);
